@@ -42,3 +42,60 @@ fn c13_eq_coefficients_finite_over_gain_range() {
 	kani::cover!(g <= -60.0, "w:at-or-below-silence");
 	kani::cover!(g > 12.0, "w:boost");
 }
+
+// ---- the cited coefficient formulas (SvfLinearTrapOptimised2) ------------------------------------------
+const KV_A_PLUS6: f64 = 1.4125375446227544;  // 10^(6/40)
+const KV_A_MINUS6: f64 = 0.7079457843841379; // 10^(-6/40)
+const KV_TAN_500_48K: f64 = 0.032736610412972586; // tan(pi * 500 / 48000)
+fn kv_pow_table(_b: f64, e: f64) -> f64 { if e > 0.0 { KV_A_PLUS6 } else { KV_A_MINUS6 } }
+fn kv_tan_table(_x: f64) -> f64 { KV_TAN_500_48K }
+
+fn kv_eq_formula_body(kind: EqFilterKind) {
+	// q and gain are enumerated concretely (symbolic choices put ite-operands into 53-bit dividers: no answer in 600 s)
+	for (q, boost) in [(0.5, true), (2.0, false), (1.0, true)] {
+		let c = Coefficients::calculate(kind, 500.0, q, Decibels(if boost { 6.0 } else { -6.0 }), 1.0 / 48000.0);
+		let a = if boost { KV_A_PLUS6 } else { KV_A_MINUS6 };
+		let t = KV_TAN_500_48K;
+		let (g, k, m0, m1, m2) = match kind {
+			EqFilterKind::Bell => { let k = 1.0 / (q * a); (t, k, 1.0, k * (a * a - 1.0), 0.0) }
+			EqFilterKind::LowShelf => { let k = 1.0 / q; (t / a.sqrt(), k, 1.0, k * (a - 1.0), a * a - 1.0) }
+			EqFilterKind::HighShelf => { let k = 1.0 / q; (t * a.sqrt(), k, a * a, k * (1.0 - a) * a, 1.0 - a * a) }
+		};
+		let a1 = 1.0 / (1.0 + g * (g + k));
+		let close = |x: f64, y: f64| (x - y).abs() <= 1e-6;
+		assert!(close(c.a1, a1) && close(c.a2, g * a1) && close(c.a3, g * g * a1), "a1 = 1/(1 + g(g + k)), a2 = g a1, a3 = g a2");
+		assert!(close(c.m0, m0) && close(c.m1, m1) && close(c.m2, m2), "mixing coefficients of the selected kind");
+		std::mem::forget(c);
+	}
+	kani::cover!(true, "w:reached");
+}
+
+// @h prop=C14 tier=quick kind=main timeout=600
+// @bounds bell filter at 500 Hz / 48 kHz for (q, gain) in {(1/2, +6 dB), (2, -6 dB), (1, +6 dB)}: the six coefficients compared (within 1e-6) with the formulas of the cited SvfLinearTrapOptimised2 design written out in the harness (concrete points: this pins the formulas, it does not quantify over parameters)
+// @funcs Coefficients::calculate
+// @assume powf and tan replaced by their native values at the arguments used (kv/validate_stubs.py)
+// @catches a changed coefficient formula: k = 1/q instead of 1/(qA) for the bell, m1 of the wrong kind
+#[kani::proof]
+#[kani::unwind(5)]
+#[kani::stub(f64::powf, kv_pow_table)]
+#[kani::stub(f64::tan, kv_tan_table)]
+fn c14_eq_bell_coefficients_match_cited_formulas() { kv_eq_formula_body(EqFilterKind::Bell); }
+
+// @h prop=C14 tier=quick kind=main timeout=600
+// @bounds low shelf, as above
+// @funcs Coefficients::calculate
+// @catches shelf g scaled by A instead of sqrt(A); m1/m2 swapped with the high shelf's
+#[kani::proof]
+#[kani::unwind(5)]
+#[kani::stub(f64::powf, kv_pow_table)]
+#[kani::stub(f64::tan, kv_tan_table)]
+fn c14_eq_low_shelf_coefficients_match_cited_formulas() { kv_eq_formula_body(EqFilterKind::LowShelf); }
+
+// @h prop=C14 tier=quick kind=main timeout=600
+// @bounds high shelf, as above
+// @funcs Coefficients::calculate
+#[kani::proof]
+#[kani::unwind(5)]
+#[kani::stub(f64::powf, kv_pow_table)]
+#[kani::stub(f64::tan, kv_tan_table)]
+fn c14_eq_high_shelf_coefficients_match_cited_formulas() { kv_eq_formula_body(EqFilterKind::HighShelf); }
